@@ -1,5 +1,7 @@
 import ObiVerif.Model.Apat
 import ObiVerif.Lemmas.Apat
+import ObiVerif.Lemmas.ApatLocate
+import ObiVerif.Lemmas.ApatIndel
 /-!
 # C10 — primer pattern matching reports exactly the matching positions and error counts (property theorems)
 
@@ -172,6 +174,77 @@ theorem findAllIndex_exact (P : Pattern) (seq : Bytes) (begin length : Int)
 example : (compile ([65, 67, 71, 84] : Bytes) 1 false).toOption.map (fun P => findAllIndex P ([97, 99, 103, 116, 116, 116, 116, 116, 97, 99, 103, 116] : Bytes) false 0 (-1))
     = some [(0, 4, 0), (8, 12, 0)] := by decide
 
+/-! ## matching with insertions, deletions and substitutions -/
+
+/-- **`ManberIndel` is exact** (`indel_iff`).  For a pattern of 1..63 positions without obligatory (`#`) position, any
+budget, any encoded text and any window: the hit `(i, k)` is pushed iff `i = pos - m + 1` for an end position `pos` of the
+scanned window `[begin, min(begin+length, |data|))`, `k ≤ maxerr`, and `k` is the least edit distance (`editDist`, a
+text symbol being equal to a pattern position when the position accepts it) between the pattern and a substring
+`data[a .. pos]` (`begin ≤ a ≤ pos + 1`; the empty substring included) of the window ending at `pos`.
+Proof: the automaton invariant `RepI` — after reading `data[begin .. pos]`, bit `m - j` of the level-`d` word ⇔ `p[0..j)`
+aligns with some suffix of the text read with `≤ d` errors (`Lemmas/ApatIndel.lean`).
+The hypothesis `hno` excludes obligatory positions: with `#` the C code masks the error transitions of the obligatory
+column by `cmask`, a semantics that the property does not describe (tied by the correspondence check only). -/
+theorem indel_iff (P : Pattern) (data : List Nat) (begin length : Nat)
+    (hm1 : 1 ≤ P.patlen) (hm : P.patlen ≤ 63) (hd : ∀ c ∈ data, c < 26)
+    (hno : ∀ a ∈ P.codes, oblig a = false) (i : Int) (k : Nat) :
+    (i, k) ∈ manberIndel P data begin length ↔
+      ∃ pos : Nat, begin ≤ pos ∧ pos < min (begin + length) data.length ∧ i = (pos : Int) - P.patlen + 1 ∧ k ≤ P.maxerr ∧
+        (∃ a, begin ≤ a ∧ a ≤ pos + 1 ∧ editDist accepts P.codes ((data.drop a).take (pos + 1 - a)) = k) ∧
+        (∀ a, begin ≤ a → a ≤ pos + 1 → k ≤ editDist accepts P.codes ((data.drop a).take (pos + 1 - a))) :=
+  manberIndel_mem P data begin length hm1 hm hd hno i k
+
+/-- **a hit is reported at an end position iff some substring of the window ending there is within the budget** -/
+theorem indel_hit_iff (P : Pattern) (data : List Nat) (begin length : Nat)
+    (hm1 : 1 ≤ P.patlen) (hm : P.patlen ≤ 63) (hd : ∀ c ∈ data, c < 26)
+    (hno : ∀ a ∈ P.codes, oblig a = false) (pos : Nat) :
+    (∃ k, ((pos : Int) - P.patlen + 1, k) ∈ manberIndel P data begin length) ↔
+      begin ≤ pos ∧ pos < min (begin + length) data.length ∧
+        ∃ a, begin ≤ a ∧ a ≤ pos + 1 ∧ editDist accepts P.codes ((data.drop a).take (pos + 1 - a)) ≤ P.maxerr :=
+  manberIndel_hit_iff P data begin length hm1 hm hd hno pos
+
+/-- `ManberAll` with the indel flag and a non-zero budget is `ManberIndel` -/
+theorem manberAll_indel (P : Pattern) (data : List Nat) (begin length : Nat)
+    (hi : P.hasIndel = true) (he : P.maxerr ≠ 0) :
+    manberAll P data begin length = manberIndel P data begin length := by
+  unfold manberAll
+  have hb : (P.maxerr == 0) = false := by simpa using he
+  simp [hb, hi]
+
+/-- **`FindAllIndex` on a linear sequence, indel mode**: the triple `(s, s+m, k)` is reported iff `s = pos - m + 1` for
+an end position `pos` of the window, and `k ≤ maxerr` is the least edit distance between the pattern and a substring of
+the window ending at `pos`. -/
+theorem findAllIndex_indel (P : Pattern) (seq : Bytes) (begin length : Int)
+    (hi : P.hasIndel = true) (he : P.maxerr ≠ 0) (hm1 : 1 ≤ P.patlen) (hm : P.patlen ≤ 63)
+    (hno : ∀ a ∈ P.codes, oblig a = false) (s e k : Int) :
+    (s, e, k) ∈ findAllIndex P seq false begin length ↔
+      ∃ pos k' : Nat, s = (pos : Int) - P.patlen + 1 ∧ e = s + P.patlen ∧ k = (k' : Int) ∧
+        (if begin < 0 then 0 else begin).toNat ≤ pos ∧
+        pos < min ((if begin < 0 then 0 else begin).toNat +
+            ((if length < 0 then (seq.length : Int) else length).toNat + Gen.apatMaxPatLen)) seq.length ∧
+        k' ≤ P.maxerr ∧
+        (∃ a, (if begin < 0 then 0 else begin).toNat ≤ a ∧ a ≤ pos + 1 ∧
+          editDist accepts P.codes (((seq.map encodeByte).drop a).take (pos + 1 - a)) = k') ∧
+        (∀ a, (if begin < 0 then 0 else begin).toNat ≤ a → a ≤ pos + 1 →
+          k' ≤ editDist accepts P.codes (((seq.map encodeByte).drop a).take (pos + 1 - a))) := by
+  unfold findAllIndex seqData
+  simp only [Bool.false_eq_true, if_false, List.mem_map, Prod.mk.injEq, Prod.exists]
+  rw [manberAll_indel P _ _ _ hi he]
+  constructor
+  · rintro ⟨a, b, hmem, h1, h2, h3⟩
+    obtain ⟨pos, hb, hp, hi', hk, hex, hall⟩ := (indel_iff P _ _ _ hm1 hm (encode_lt seq) hno a b).1 hmem
+    refine ⟨pos, b, by omega, by omega, by omega, hb, by simpa using hp, hk, hex, hall⟩
+  · rintro ⟨pos, k', h1, h2, h3, hb, hp, hk, hex, hall⟩
+    refine ⟨s, k', ?_, rfl, by omega, by omega⟩
+    exact (indel_iff P _ _ _ hm1 hm (encode_lt seq) hno _ _).2 ⟨pos, hb, by simpa using hp, h1, hk, hex, hall⟩
+
+/-- non-vacuity / test: pattern `ACGTA`, budget 1, indels; the hits are the end positions 3 (`cgta`: first pattern
+symbol deleted, reported start −1: "may return shifted pos") and 11 (`accgta`, one inserted symbol, or `cgta`) -/
+example : (compile ([65, 67, 71, 84, 65] : Bytes) 1 true).toOption.map
+    (fun P => (decide (∀ a ∈ P.codes, oblig a = false), P.patlen, manberIndel P [2, 6, 19, 0, 19, 19, 0, 2, 2, 6, 19, 0] 0 12,
+      editDist accepts P.codes [2, 6, 19, 0], editDist accepts P.codes [0, 2, 2, 6, 19, 0]))
+    = some (true, 5, [(-1, 1), (7, 1)], 1, 1) := by decide
+
 /-! ## strand symmetry -/
 
 instance (a a' : Nat) : Decidable (MirrorCode a a') := by unfold MirrorCode; exact inferInstance
@@ -259,6 +332,44 @@ theorem locate_total (pat seq : Bytes) : locatePattern pat seq = none ↔ pat = 
   cases pat with
   | nil => simp
   | cons a p => simp
+
+/-- **`LocatePattern` (repaired) returns a best semi-global alignment** (`locate_spec`).  For every non-empty pattern
+`p` and every fragment `frag`: the call returns a span `0 ≤ f ≤ t ≤ |frag|` and an error count `k` such that `k` is the
+edit distance (`editDist`, Levenshtein: substitutions, insertions, deletions cost 1; two symbols are equal when
+`_samenuc` says so, i.e. their IUPAC classes intersect) between `p` and `frag[f:t]`, and no substring `frag[a:b]` of the
+fragment is closer to the pattern.  `editDist` is the textbook recursion (`Lemmas/ApatLocate.lean`); it is the least cost
+of an alignment (`ali_editDist`, `editDist_le`). -/
+theorem locate_spec (p frag : Bytes) (hp : p ≠ []) :
+    ∃ f t k : Nat, locatePattern p frag = some ((f : Int), (t : Int), (k : Int)) ∧ f ≤ t ∧ t ≤ frag.length ∧
+      k = editDist samenuc p ((frag.drop f).take (t - f)) ∧
+      ∀ a b : Nat, k ≤ editDist samenuc p ((frag.drop a).take (b - a)) := by
+  obtain ⟨f, t, k, h1, h2, h3, h4, h5⟩ := locatePattern_spec p frag hp
+  refine ⟨f, t, k, h1, h2, h3, ?_, fun a b => h5 a b _ (ali_editDist _ _ _)⟩
+  exact Nat.le_antisymm (h5 f t _ (ali_editDist _ _ _)) (editDist_le h4)
+
+/-- the same, in the form of the property statement: whatever `LocatePattern` returns is such a triple -/
+theorem locate_spec_of_eq (p frag : Bytes) (f t k : Int) (h : locatePattern p frag = some (f, t, k)) :
+    0 ≤ f ∧ f ≤ t ∧ t ≤ (frag.length : Int) ∧
+      k = (editDist samenuc p ((frag.drop f.toNat).take (t.toNat - f.toNat)) : Nat) ∧
+      ∀ a b : Nat, k ≤ (editDist samenuc p ((frag.drop a).take (b - a)) : Nat) := by
+  have hp : p ≠ [] := fun h0 => by rw [(locate_total p frag).2 h0] at h; cases h
+  obtain ⟨f', t', k', h1, h2, h3, h4, h5⟩ := locate_spec p frag hp
+  rw [h1] at h
+  simp only [Option.some.injEq, Prod.mk.injEq] at h
+  obtain ⟨rfl, rfl, rfl⟩ := h
+  refine ⟨by omega, by omega, by omega, ?_, fun a b => by have := h5 a b; omega⟩
+  simp only [Int.toNat_natCast]
+  rw [← h4]
+
+/-- `editDist` is the least cost of an alignment (`Ali`: the inductive definition of alignments with their cost) -/
+theorem editDist_least (p w : Bytes) :
+    Ali samenuc p w (editDist samenuc p w) ∧ ∀ k, Ali samenuc p w k → editDist samenuc p w ≤ k :=
+  ⟨ali_editDist _ _ _, fun _ h => editDist_le h⟩
+
+/-- tests of the specification function: plain Levenshtein distance for the equality predicate (kitten/sitting = 3);
+IUPAC-aware for `_samenuc` (`N` against `a`: 0; `acgt` against `cgt`: 1) -/
+example : editDist (fun a b : UInt8 => a == b) [107, 105, 116, 116, 101, 110] [115, 105, 116, 116, 105, 110, 103] = 3 := by decide
+example : editDist samenuc ([78] : Bytes) [97] = 0 ∧ editDist samenuc ([65, 67, 71, 84] : Bytes) [99, 103, 116] = 1 := by decide
 
 /-- tests (sample evaluations of the repaired model; each was a failing input of the unrepaired code):
 D19 start −1; D19 pattern of length 1; D32 sequence shorter than the pattern -/
